@@ -32,28 +32,47 @@ class Layout:
         return sorted(m for m in self.mods if m.startswith(dotted + '.'))
 
 
-def gen_module_text(rnd, wrapped=True, empty_ok=False):
+class _Uniq:
+    """Every generated function gets its own bytecode: the profiler core pads byte-identical
+    functions with NOPs and can drop one of them when functions are registered repeatedly
+    (properties C04/C12) - that must not blur what C09 measures."""
+    def __init__(self):
+        self.n = 0
+
+    def body(self, indent, var='y'):
+        self.n += 1
+        k, out = self.n, []
+        for _bit in range(7):
+            out.append('%s%s = %s %s 1' % (indent, var, var, '+' if k & 1 else '-'))
+            k >>= 1
+        return out
+
+
+def gen_module_text(rnd, wrapped=True, empty_ok=False, uniq=None):
+    uniq = uniq or _Uniq()
     lines, funcs, classes = [], [], {}
     nf = rnd.randint(0 if empty_ok else 1, 3)
     for i in range(nf):
         nm = 'f%d' % i
-        lines += ['def %s(x=0):' % nm, '    y = x + %d' % rnd.randint(1, 999), '    return y', '']
+        lines += ['def %s(x=0):' % nm, '    y = x + %d' % rnd.randint(1, 999)] + uniq.body('    ') + ['    return y', '']
         funcs.append(nm)
     if rnd.random() < 0.6:
         cn = 'K%d' % rnd.randint(0, 2)
         ms = [('m0', 'plain')]
-        lines += ['class %s:' % cn, '    def m0(self, x=0):', '        return x + %d' % rnd.randint(1, 999)]
+        lines += ['class %s:' % cn, '    def m0(self, x=0):', '        y = x + %d' % rnd.randint(1, 999)] \
+            + uniq.body('        ') + ['        return y']
         if rnd.random() < 0.5:
-            lines += ['    def m1(self):', '        return %d' % rnd.randint(1, 999)]
+            lines += ['    def m1(self):', '        y = %d' % rnd.randint(1, 999)] + uniq.body('        ') + ['        return y']
             ms.append(('m1', 'plain'))
         if wrapped and rnd.random() < 0.5:
             kind = rnd.choice(['static', 'class', 'property'])
             if kind == 'static':
-                lines += ['    @staticmethod', '    def w0(x=0):', '        return x - %d' % rnd.randint(1, 999)]
+                lines += ['    @staticmethod', '    def w0(x=0):', '        y = x - %d' % rnd.randint(1, 999)]
             elif kind == 'class':
-                lines += ['    @classmethod', '    def w0(cls, x=0):', '        return x - %d' % rnd.randint(1, 999)]
+                lines += ['    @classmethod', '    def w0(cls, x=0):', '        y = x - %d' % rnd.randint(1, 999)]
             else:
-                lines += ['    @property', '    def w0(self):', '        return %d' % rnd.randint(1, 999)]
+                lines += ['    @property', '    def w0(self):', '        y = %d' % rnd.randint(1, 999)]
+            lines += uniq.body('        ') + ['        return y']
             ms.append(('w0', kind))
         lines.append('')
         classes[cn] = ms
@@ -65,22 +84,23 @@ def gen_module_text(rnd, wrapped=True, empty_ok=False):
 def gen_layout(rnd, prefix='', wrapped=True):
     """prefix: directory (relative, '' or 'app/') under which importable things live."""
     lay = Layout()
+    uniq = _Uniq()
     pk = rnd.sample(PKGS, rnd.randint(1, 3))
     for p in pk:
-        t, f, c = gen_module_text(rnd, wrapped, empty_ok=True)
+        t, f, c = gen_module_text(rnd, wrapped, empty_ok=True, uniq=uniq)
         lay.add_module(p, '%s%s/__init__.py' % (prefix, p), t, f, c, is_pkg=True)
         for m in rnd.sample(MODS, rnd.randint(1, 3)):
-            t, f, c = gen_module_text(rnd, wrapped)
+            t, f, c = gen_module_text(rnd, wrapped, uniq=uniq)
             lay.add_module('%s.%s' % (p, m), '%s%s/%s.py' % (prefix, p, m), t, f, c)
         if rnd.random() < 0.5:
             s = rnd.choice(SUBS)
-            t, f, c = gen_module_text(rnd, wrapped, empty_ok=True)
+            t, f, c = gen_module_text(rnd, wrapped, empty_ok=True, uniq=uniq)
             lay.add_module('%s.%s' % (p, s), '%s%s/%s/__init__.py' % (prefix, p, s), t, f, c, is_pkg=True)
             for m in rnd.sample(MODS, rnd.randint(1, 2)):
-                t, f, c = gen_module_text(rnd, wrapped)
+                t, f, c = gen_module_text(rnd, wrapped, uniq=uniq)
                 lay.add_module('%s.%s.%s' % (p, s, m), '%s%s/%s/%s.py' % (prefix, p, s, m), t, f, c)
     for m in rnd.sample(TOPMODS, rnd.randint(0, 2)):
-        t, f, c = gen_module_text(rnd, wrapped)
+        t, f, c = gen_module_text(rnd, wrapped, uniq=uniq)
         lay.add_module(m, '%s%s.py' % (prefix, m), t, f, c)
     return lay
 
@@ -237,24 +257,45 @@ OWN_FUNCS = ['own_plain', 'own_outer', 'own_inner', 'own_inner2', 'own_deco', 'o
              'own_in_for', 'own_in_with']
 
 
+def _local_name(b):
+    """the name the import statement binds in the script's namespace"""
+    return b.local if b.local is not None else b.real.split('.')[0]
+
+
 def gen_script(rnd, lay, with_own):
-    aliases = ['al%d' % i for i in range(40, -1, -1)]
+    aliases = ['al%d' % i for i in range(60, -1, -1)]
     lines = ['_acc = []']
-    bindings = []     # per statement: list of Binding
+    bindings = []     # all Binding objects, in source order
+    bound = {}        # local name -> what it is bound to (a local name is never rebound to something else)
     for _ in range(rnd.randint(1, 5)):
-        src, bs = gen_import_stmt(rnd, lay, aliases)
+        for _attempt in range(20):
+            src, bs = gen_import_stmt(rnd, lay, aliases)
+            trial = dict(bound)
+            ok = True
+            for b in bs:
+                ln = _local_name(b)
+                tgt = b.real if b.local is not None else b.real.split('.')[0]
+                if trial.get(ln, tgt) != tgt:
+                    ok = False
+                    break
+                trial[ln] = tgt
+            if ok:
+                bound = trial
+                break
+        else:
+            continue
         lines.append(src)
-        bindings.append(bs)
-        if rnd.random() < 0.4:
-            lines.append('_acc.append(0)')
-    for bs in bindings:
+        bindings += bs
+        # every binding is used right behind its import statement
         for b in bs:
             lines.append(usage_line(lay, b))
+        if rnd.random() < 0.4:
+            lines.append('_acc.append(0)')
     text = '\n'.join(lines) + '\n'
     if with_own:
         text += OWN_DEFS + OWN_CALLS
     text += 'print(len(_acc))\n'
-    return text, [b for bs in bindings for b in bs]
+    return text, bindings
 
 
 def spell_selection(rnd, lay, dotted, base_abs, prefix):
